@@ -1258,7 +1258,7 @@ PROPS = {
         "assumptions": ["the tokenizer is immutable while workers exist (checked at compile time: Tokenizer/Dictionary are Send+Sync; source audit for interior mutability)"],
     },
     "C02": {
-        "modules": ["Vibrato.Props.C02", "Vibrato.Props.C02cap", "Vibrato.Props.C02spec", "Vibrato.Props.C02u16"],
+        "modules": ["Vibrato.Props.C02", "Vibrato.Props.C02cap", "Vibrato.Props.C02spec", "Vibrato.Props.C02u16", "Vibrato.Props.C02chain"],
         "theorems": ["Vibrato.viterbi_optimal", "Vibrato.total_cost_prefix",
                      "Vibrato.reported_is_candidate_segmentation", "Vibrato.optimal_among_live_segmentations",
                      "Vibrato.final_boundary_unique", "Vibrato.optimal_among_candidate_segmentations",
@@ -1271,7 +1271,9 @@ PROPS = {
                      # the model compared with the code stores back pointers as u16 (Model/LatticeW.lean, Model/Worker16.lean)
                      "Vibrato.buildLatticeW_eq", "Vibrato.buildLatticeW_costs", "Vibrato.idxExact_eq", "Vibrato.stepW_eq_step",
                      "Vibrato.viterbi_optimal16", "Vibrato.total_cost_prefix16", "Vibrato.idxExact_of_cands",
-                     "Vibrato.wrap_reported", "Vibrato.wrap_not_minimal"],
+                     "Vibrato.wrap_reported", "Vibrato.wrap_not_minimal",
+                     # chain sentences (stream tokchain): the closed form the driver answers with
+                     "Vibrato.chain_node_cost", "Vibrato.chain_tokens", "Vibrato.chain_envOK", "Vibrato.chain_covered"],
         "streams": c02_streams,
         "rule": "random dictionaries (matrix connector) x sentences x options; non-trivial = the lattice dump "
                 "has a boundary with >= 2 nodes (a real choice); distinct = sha1 of the case input",
